@@ -113,6 +113,10 @@ fn generate(rng: &mut Rng) -> ConnScenario {
         let t = services.localization.messages.get_mut("en").expect("default table");
         t.insert("disconnect_timeout".into(), (*rng.pick(&["Zeit\u{fc}berschreitung \u{2013} keine Antwort", "timeout \u{2764}", "plain ascii timeout", "[Passage] Timed out", "\"slow\" client", "408", "[]"])).to_string());
     }
+    // an operator who overrode only the other message: the table that is selected has no text for the timeout
+    if rng.chance(1, 8) {
+        services.localization.messages.get_mut("en").expect("default table").remove("disconnect_timeout");
+    }
     ConnScenario {
         seed: rng.next_u64(),
         cfg: ConnCfg { secret: if rng.chance(1, 2) { Some(rng.bytes(16)) } else { None }, expiry: None, max_frame: None, client_addr: gen_addr(rng) },
@@ -219,7 +223,8 @@ fn check_backpressure(sc: &ConnScenario, out: &ConnOutcome, rep: &mut RunReport)
 fn is_timeout_disconnect(sc: &ConnScenario, reason: &Value) -> bool {
     match sc.services.localization.messages.get("en").and_then(|t| t.get("disconnect_timeout")) {
         Some(m) => super::c03::text_matches(reason, m),
-        None => reason == &json!({"text": "timeout-en"}),
+        // (a table without this key: the localization adapter falls back to the key itself as the text)
+        None => super::c03::text_matches(reason, "disconnect_timeout"),
     }
 }
 
